@@ -7,17 +7,17 @@ REGION = "Coq proof of a certified result checker (slab decomposition, soundness
 K1 = "Coq proofs about a hand-written Gallina model + correspondence check (model vs implementation on generated and exhaustive inputs)"
 
 CHECKS = {
- 'C01': (REGION, "Theorem C01_region (all inputs, outputs, every real point): a pair accepted by the extracted checker satisfies the property at every point farther than 2 from the input edges; per-run certification of the implementation's outputs on generated + corpus inputs.", "4.1", "coq-region"),
+ 'C01': (REGION, "Theorem C01_region (all inputs, outputs, every real point): a pair accepted by the extracted checker satisfies the property at every point farther than 2 from the input edges; per-run certification of the implementation's outputs on generated + corpus inputs; K3 theorems over terms regenerated from the source on every run (contribution rule, wind-count updates, new-polygon decision, topX at vertices, isValidAelOrder = the geometric order above the scanline).", "4.1", "coq-region"),
  'C02': (REGION, "Theorem C02_canonical: accepted outputs have winding 0 or s at every real point farther than 2 from their edges; corollaries for the three readings and re-union; syntactic half decided directly on every output.", "4.2", "coq-region"),
  'C03': (K1 + "; hostile-input exploration of every exported entry point for the unmodelled engines", "Totality theorems for the modelled leaf routines (C03_trim_total, C03_minkowski_total, C03_pip_total, C03_precision_total) for all inputs; for the sweep, the offsetter and the rectangle clipper totality is observed under recover/time-limit/success-flag on a hostile stream covering all API groups and enum values (PARTIAL).", "4.3", "coq-k1"),
  'C04': (REGION, "Theorems C04_child_inside_parent / C04_siblings_disjoint: accepted node pairs satisfy containment / disjointness at every real point away from their edges; C04_parent_is_innermost (abstract forest): with those two clauses the polygons around a point form a chain, so a parent is the innermost polygon around its child; node API theorems (IsHole alternates with level); same-polygons, levels and IsHole <=> negative area decided directly.", "4.4", "coq-region"),
  'C05': (REGION, "Theorems C05_implication / C05_disjoint / C05_winding_zero_or: for accepted instances the input region is kept, every point within |delta| of an edge along its normal (and the vertex discs for round joins) is inside, nothing is farther than k|delta|+tol, the result is canonical; mirror statements for shrinking; the over-shrink premise is certified the same way. The join construction is not modelled (PARTIAL).", "4.5", "coq-region"),
- 'C06': (REGION, "Theorem C06_rect: accepted (input, output, rectangle) triples have output winding = input winding inside and 0 outside the rectangle at every real point away from the band; vertex bound, inside-unchanged, outside-vanishes and the driver decided directly.", "4.6", "coq-region"),
+ 'C06': (REGION, "Theorem C06_rect: accepted (input, output, rectangle) triples have output winding = input winding inside and 0 outside the rectangle at every real point away from the band; vertex bound, inside-unchanged, outside-vanishes and the driver decided directly; K3: the rectangle predicates (Contains / Intersects / IsEmpty), getLocation, getNextLocation's decisions and getSegmentIntersection regenerated from the source and proved against their specifications.", "4.6", "coq-region"),
  'C07': ("differential comparison of every float entry point with its 64-bit counterpart on quantised input (bit-exact) for all precisions; Coq theorems over wrapper terms regenerated from the source (K3)", "Every float entry point is run against the 64-bit entry point on ScalePathsDToPaths64(input) for all 17 precisions and 4 illegal ones, compared bit for bit; the wrapper dataflow is translated from /repo's current text into Coq terms and proved equal to the specified dataflow (see evidence for which wrappers).", "4.7", "coq-k3"),
  'C08': (K1 + "; " + REGION, "Theorems C08_total/C08_count/C08_quads_closed/C08_quads_positive about the faithful model of minkowskiInternal (all inputs); C08_region: accepted results equal the union of the swept parallelograms at every real point farther than 2 from every parallelogram edge; canonical form and sum(A,B)=sum(B,A) certified likewise. PARTIAL near interior parallelogram edges (DESIGN 4.8).", "4.8", "coq-region"),
  'C09': ("Coq proof of a certified result checker for open segments (slab ordering + exact pointwise evaluation, soundness for every real parameter) + extracted checker run on the implementation's outputs", "Theorem c09_seg_sound: for an accepted (closed subject, clip, open solution, subject segment), every real point of the segment farther than 2 from every closed edge is covered by the open solution exactly when the clip-type rule on the exact winding numbers says so; the closed solution is certified against the closed inputs alone (C01_region); sub-polyline clause decided directly.", "4.9", "coq-region"),
  'C10': (REGION, "Theorems C10_strips_inside / C10_nothing_far (+ C02_canonical): accepted strokes contain both normal strips of every segment and nothing farther than k*delta+tol from the polyline, at every real point away from the band. The missing end caps of the unchanged tree are a recorded known finding.", "4.10", "coq-region"),
- 'C11': ("Coq proof of a certified result checker for line clipping (exact Liang-Barsky intervals, soundness for every real parameter) + extracted checker run on the implementation's outputs", "Theorem C11_lines: for an accepted (rectangle, lines, output), every real point of every input segment farther than 2 from the rectangle's sides is covered by the output exactly when it is strictly inside; C11_vertices: output vertices within the rectangle enlarged by 1 and within 1 of an input segment; driver consistency decided directly.", "4.11", "coq-region"),
+ 'C11': ("Coq proof of a certified result checker for line clipping (exact Liang-Barsky intervals, soundness for every real parameter) + extracted checker run on the implementation's outputs", "Theorem C11_lines: for an accepted (rectangle, lines, output), every real point of every input segment farther than 2 from the rectangle's sides is covered by the output exactly when it is strictly inside; C11_vertices: output vertices within the rectangle enlarged by 1 and within 1 of an input segment; driver consistency decided directly; K3: getLocation / getSegmentIntersection (reported point lies on both closed segments) regenerated from the source.", "4.11", "coq-region"),
  'C12': ("Coq proofs about a hand-written state machine of the engine between calls (sweep as oracle), state compared with the real engine through a verif hook after every history; history-vs-fresh-engine differential run with certified region equality", "Theorems C12_* for ALL operation sequences: scratch lists are empty between calls, an Execute's output depends only on the paths added (and the sticky tree flag), equals a fresh engine's under the flat-output hypothesis (which the check tests), solution arguments are replaced; machine-checked refutation without that hypothesis. Input immutability is checked dynamically (PARTIAL).", "4.12", "coq-k1"),
  'C13': (K1 + "; " + REGION, "Theorems C13_* (all int64 inputs): the computed cross product is the exact one mod 2^64, translation invariance of cross product / collinearity / area accumulator with no range hypothesis, exactness from coordinate differences, the exact (tight) coordinate range 2^30.5 of CrossProduct, and machine-checked wrong signs inside the advertised 2^61; translated and scaled runs certified by the proved region checker.", "4.13", "coq-region"),
  'C14': (K1, "Theorems C14_* for all inputs within 2^29: Area64/IsPositive64 exact when the doubled area is below 2^63 (and machine-checked refutation beyond), GetBounds64 exact, 128-bit product exact, isCollinear exact except when a coordinate difference is 1 (refutations proved), CrossProduct sign exact, PointInPolygon total and equal to the exact even-odd specification on an exhaustively enumerated scope (partial beyond, tied by correspondence).", "4.14", "coq-k1"),
